@@ -26,9 +26,10 @@ def real_scale(wd, V, rng, n):
     exe = vlib.go_build(wd, "./cmd/dcat", os.path.join(wd, "dcat"), tags="")
     recs = []
     for i in range(n):
-        m = rng.choice([1, 2, 3, 5, 6])
-        length = rng.randint(1, 12)
-        f = [rng.choice("xxyn") for _ in range(length)]
+        # MaxLineLength 8 KiB ... 1 MiB (the default): messages from below one transport read (32 KiB) to several of them
+        m = rng.choice([1, 2, 3, 5, 6, 9, 12, 128])
+        length = rng.randint(1, 12) if m < 9 else rng.randint(6, 22)
+        f = [rng.choice("xxyn" if m < 9 else "xxxxyyn") for _ in range(length)]
         if rng.random() < 0.3 and f and f[-1] == "n":
             f = f[:-1]
         cfgp = os.path.join(wd, "dcat%d.json" % i)
@@ -126,9 +127,10 @@ def run(tier, replay):
         rc, out = vlib.go_test(wd, "./internal/clients/connectors", OV, "TestC01SlowConsumer", env={"VERIF_OUT": so}, timeout=300)
         if rc != 0 or not os.path.exists(so):
             raise vlib.Inconclusive("slow consumer harness failed\n" + out[-2500:])
-        slow = json.load(open(so))
-        if slow["problem"] or not slow["equal"]:
-            V.violation("a consumer stalling for 3.8 s: output incomplete or altered", slow)
+        slows = json.load(open(so))
+        for slow in slows:
+            if slow["problem"] or not slow["equal"]:
+                V.violation("a consumer stalling for 3.8 s (%s file): output incomplete or altered" % slow["variant"], slow)
         nontriv = sum(1 for c in chosen if c["hasd"] or c["dot"] or c["toolong"] or c["exp"] != c["f"])
         cov = {"states": r.distinct, "transitions": r.generated, "traces_validated_against_impl": len(recs),
                "evaluations": res["evaluations"] + len(recs) + 1, "distinct_nontrivial": nontriv,
